@@ -206,20 +206,22 @@ func run(r *report.Run, shard, nshards int, replayFile string) {
 		}
 	}
 	var devs []dev
-	for _, l := range order {
-		for _, val := range hostile(l.Kind, r.Thorough()) {
-			devs = append(devs, dev{MsgType: l.MsgType, Field: l.Field, Kind: l.Kind, Value: val, Mode: "first-block"})
-			if r.Thorough() {
-				devs = append(devs, dev{MsgType: l.MsgType, Field: l.Field, Kind: l.Kind, Value: val, Mode: "all"})
-			}
-		}
-	}
+	// history-level and governance-value deviations first: they are few, and a deadline cap must cut
+	// the tail of the field product rather than these
 	for _, at := range []string{"early", "mid", "late"} {
 		devs = append(devs, dev{Gov: "fast-forward", Value: at, Kind: "history", Mode: "ids+2000"})
 	}
 	for _, g := range govMenu() {
 		for _, v := range g.Values {
 			devs = append(devs, dev{Gov: g.Name, Value: v, Kind: "gov", Mode: "setup"})
+		}
+	}
+	for _, l := range order {
+		for _, val := range hostile(l.Kind, r.Thorough()) {
+			devs = append(devs, dev{MsgType: l.MsgType, Field: l.Field, Kind: l.Kind, Value: val, Mode: "first-block"})
+			if r.Thorough() {
+				devs = append(devs, dev{MsgType: l.MsgType, Field: l.Field, Kind: l.Kind, Value: val, Mode: "all"})
+			}
 		}
 	}
 	if shard == 0 {
